@@ -904,7 +904,8 @@ func everyItemReaches(fn *ssa.Function, rv *ssa.UnOp, callee string) bool {
 	var skip []Edge
 	instrsOf(fn, func(in ssa.Instruction) {
 		if l, ok := in.(*ssa.Lookup); ok && l.CommaOk && item != nil && sameVal(l.Index, item) {
-			if _, isLocal := strip(l.X).(*ssa.MakeMap); isLocal {
+			isLocal := visitedSetIsLocal(fn, l.X)
+			if isLocal {
 				for _, ref := range *l.Referrers() {
 					if e, ok := ref.(*ssa.Extract); ok && e.Index == 1 {
 						skip = append(skip, trueEdges(fn, e)...)
@@ -1013,7 +1014,7 @@ func everyItemPasses(fn *ssa.Function, rv *ssa.UnOp, processed func(ssa.Instruct
 	var skip []Edge
 	instrsOf(fn, func(in ssa.Instruction) {
 		if l, ok := in.(*ssa.Lookup); ok && l.CommaOk && item != nil && sameVal(l.Index, item) {
-			if _, isLocal := strip(l.X).(*ssa.MakeMap); isLocal {
+			if visitedSetIsLocal(fn, l.X) {
 				for _, ref := range *l.Referrers() {
 					if e, ok := ref.(*ssa.Extract); ok && e.Index == 1 {
 						skip = append(skip, trueEdges(fn, e)...)
@@ -1496,4 +1497,32 @@ func checkpointKeyDiscipline(w *World, r *Report, rule string) {
 		}
 	}
 	r.check(told, rule, "records-told-apart", w.Pos(each.fn.Pos()), "the funds enumeration skips the vertex records of the shared store", whyT)
+}
+
+// visitedSetIsLocal: the map a walk's skip test looks into belongs to this operation — made in this function, or handed
+// to this (unexported) per-item helper by callers that all pass a map they made themselves.
+func visitedSetIsLocal(fn *ssa.Function, m ssa.Value) bool {
+	if _, ok := strip(m).(*ssa.MakeMap); ok {
+		return true
+	}
+	prm, isPrm := strip(m).(*ssa.Parameter)
+	if !isPrm || curWorld == nil {
+		return false
+	}
+	callers := staticCallers(curWorld, fn)
+	if len(callers) == 0 {
+		return false
+	}
+	for _, cs := range callers {
+		okArg := false
+		for k, p := range fn.Params {
+			if p == prm && k < len(cs.Common().Args) {
+				_, okArg = strip(cs.Common().Args[k]).(*ssa.MakeMap)
+			}
+		}
+		if !okArg {
+			return false
+		}
+	}
+	return true
 }
